@@ -218,15 +218,15 @@ Proof.
 Qed.
 
 (** * session.sql end to end (after qualify): splice, freeze, collect *)
-Theorem sql_sound : forall q1 views base0 nm r,
-  no_capture q1 views = true ->
-  fresh_for_query nm (splice q1 views) = true ->
-  nodupb (static_cols (q_main (splice q1 views))) = true ->
-  ((exists f, eval_df f (sql_df nm (splice q1 views)) base0 = Some r)
+Theorem sql_sound : forall so uo q1 views base0 nm r,
+  no_capture so uo q1 views = true ->
+  fresh_for_query nm (splice so uo q1 views) = true ->
+  nodupb (static_cols (q_main (splice so uo q1 views))) = true ->
+  ((exists f, eval_df f (sql_df nm (splice so uo q1 views)) base0 = Some r)
    <-> exists g, Run q1 (view_env g views base0) r).
 Proof.
-  intros q1 views base0 nm r NC Hf Hnd.
-  rewrite (sql_df_sound nm (splice q1 views) base0 r Hf Hnd).
+  intros so uo q1 views base0 nm r NC Hf Hnd.
+  rewrite (sql_df_sound nm (splice so uo q1 views) base0 r Hf Hnd).
   apply splice_sound. exact NC.
 Qed.
 
@@ -236,9 +236,11 @@ Section MachineLevel.
   Variable tables : list (string * frame).
 
   Definition sql_side_ok (st : state) (q1 : query) : bool :=
-    no_capture q1 (s_views st)
-    && fresh_for_query (fresh (s_next st)) (splice q1 (s_views st))
-    && nodupb (static_cols (q_main (splice q1 (s_views st)))).
+    let so := c_skip_own_ctes c in
+    let uo := c_user_refs_only c in
+    no_capture so uo q1 (s_views st)
+    && fresh_for_query (fresh (s_next st)) (splice so uo q1 (s_views st))
+    && nodupb (static_cols (q_main (splice so uo q1 (s_views st)))).
 
   (** session.sql(q): if qualify accepts the query as q1 and a DataFrame comes back, collecting it
       yields r exactly when the engine yields r for q1 with every view name bound to its stored frame *)
@@ -252,7 +254,8 @@ Section MachineLevel.
     intros st q q1 d Hq Hd Hok r. unfold sql_side_ok in Hok.
     apply andb_true_iff in Hok. destruct Hok as [Hok Hnd]. apply andb_true_iff in Hok. destruct Hok as [NC Hf].
     cbn [mstep] in Hd. rewrite Hq in Hd. destruct (forallb _ _); cbn [snd] in Hd; [|discriminate].
-    inversion Hd; subst d. apply (sql_sound q1 (s_views st) (base tables) (fresh (s_next st)) r); assumption.
+    inversion Hd; subst d.
+    apply (sql_sound (c_skip_own_ctes c) (c_user_refs_only c) q1 (s_views st) (base tables) (fresh (s_next st)) r); assumption.
   Qed.
 
   (** createOrReplaceTempView(name) of d followed by session.table(name') for any spelling of the name:
@@ -341,13 +344,13 @@ Proof. intros Hi H. exact (proj1 (qualify_sound_both info e Hi) q q' H). Qed.
 (** * the proved part of C13 in one statement, for any configuration that passes [cfg_ok] *)
 Definition C13_proved (c : cfg) : Prop :=
   (* (1) the splice is a sound substitution, for every query tree, registry and base environment *)
-  (forall q views base0 r, no_capture q views = true ->
-     (Run (splice q views) base0 r <-> exists g, Run q (view_env g views base0) r))
+  (forall so uo q views base0 r, no_capture so uo q views = true ->
+     (Run (splice so uo q views) base0 r <-> exists g, Run q (view_env g views base0) r))
   (* (2) session.sql end to end, after qualify *)
   /\ (forall tables st q q1 d,
         qualify (s_cache st) (lower_query q) = Some q1 ->
         snd (mstep c tables st (SSql q)) = ODf d ->
-        sql_side_ok st q1 = true ->
+        sql_side_ok c st q1 = true ->
         forall r, (exists f, eval_df f d (base tables) = Some r)
                   <-> exists g, Run q1 (view_env g (s_views st) (base tables)) r)
   (* (3) createOrReplaceTempView then session.table / the splice, every spelling of the name *)
@@ -384,7 +387,7 @@ Definition C13_proved (c : cfg) : Prop :=
 Theorem C13_package : forall c, cfg_ok c = true -> C13_proved c.
 Proof.
   intros c Hc. unfold C13_proved. split; [|split; [|split; [|split; [|split; [|split]]]]].
-  - intros q views base0 r NC. apply splice_sound; exact NC.
+  - intros so uo q views base0 r NC. apply splice_sound; exact NC.
   - intros tables st q q1 d Hq Hd Hok r. apply (session_sql_sound c tables st q q1 d); assumption.
   - intros tables st name name' h d Hh Hn Hret Hf Hnd.
     exact (register_then_table_sees_df c tables st name name' h d Hc Hh Hn Hret Hf Hnd).
